@@ -1,4 +1,5 @@
 import CifModel.Props.C09
+import CifModel.Props.C09Buf
 /-
   Review examples for C09 (group gB, independent review).
 
@@ -113,5 +114,21 @@ private def t2 : Entries Nat := (Entries.set t1 (fun n => normalizeTableIndex U 
 example : (t1.keys == [[201]] && t2.keys == [[69, 769]]) = true := by decide +kernel
 example : okIs (t2.get (fun n => normalizeTableIndex U n 9) [201] 7) 2 = true := by decide +kernel
 example : errIs (t2.get (fun n => normalizeTableIndex U n 9) [233] 7) 7 = true := by decide +kernel             -- case is significant
+
+
+/-! ### group gS: the buffer-level theorems instantiated with these operations (nfd ≠ nfc ≠ id, lengths change in every stage) -/
+
+/-- the hypotheses of `C09_normalize_buffer_refines` hold for `U` with the canonical capacity-aware calls -/
+example : Model.NormBuf.Contract U (Model.NormBuf.IcuOps.of U) := Lemmas.NormBuf.of_contract U
+
+/-- … and its conclusion for the source `É` + NUL, length convention −1, the C's first-buffer guess: a block holding exactly
+    `cifNormalize U "É"` + NUL (`é` + NUL: NFD expands to two units — an exact fit of the first buffer —, NFC contracts again) -/
+example : ∃ t cap, Model.NormBuf.cifNormalizeBuf (Model.NormBuf.IcuOps.of U) Model.NormBuf.cGuess [201, 0] (-1) true 2
+    = (t, .ok ⟨cap, cifNormalize U [201] ++ [0]⟩) := by
+  obtain ⟨t, cap, h, _⟩ := (C09_normalize_buffer_refines U _ (Lemmas.NormBuf.of_contract U) Model.NormBuf.cGuess [201, 0] (-1) true 2
+    (by decide)).2 1 (by rfl)
+  exact ⟨t, cap, h⟩
+
+example : cifNormalize U [201] = [233] := by decide
 
 end CifModel.ReviewC09
